@@ -138,6 +138,12 @@ func cmdCheck(args []string) int {
 	rc := 0
 	violations := 0
 	cexN := 0
+	// no harness of a registered check needs more than two minutes (quick) or five (thorough) on
+	// the unchanged tree; a changed tree may make one explode, which must end the run, not hang it
+	harnessBudget = 12 * time.Minute
+	if *tier == "thorough" {
+		harnessBudget = 40 * time.Minute
+	}
 	propPrecise := preciseBin
 	for _, h := range hs {
 		// the precise (string-theory) solver may be chosen per harness
